@@ -133,7 +133,10 @@ def main():
             bad += 1
             print(f"MISMATCH {label}: CPython {want!r} vs engine {got!r}")
     print(f"engine cross-check: {len(cases)} calls, {bad} mismatches, {unsupported} outside the engine's subset")
-    return 1 if bad else 0
+    import subprocess
+    p = subprocess.run([sys.executable, os.path.join(ROOT, "tools", "engine_crosscheck_symbolic.py")], cwd=ROOT, capture_output=True, text=True)
+    print(p.stdout.strip() or p.stderr[-400:])
+    return 1 if (bad or p.returncode != 0) else 0
 
 
 if __name__ == "__main__":
